@@ -22,6 +22,9 @@ let handler r =
       put_history os
   | "gammaln" -> let x = num r in put_res (gammaln fops x)
   | "gamma" -> let x = num r in put_res (gamma fops x)
+  | "gamrec" -> let x = num r in
+      let l = [gammaln fops x; gammaln fops (x +. 1.0); gamma fops x; gamma fops (x +. 1.0)] in
+      if List.exists (fun o -> match o with Ok _ -> false | _ -> true) l then put_history l else List.iter put_res l
   | "gammaq" -> let x = num r in let a = num r in put_res (gammaq fops x a)
   | "gammap" -> let x = num r in let a = num r in put_res (gammap fops x a)
   | "qint" -> let x = num r in let a = num r in put_res (gammaq_int fops x a)
